@@ -325,13 +325,13 @@ def count_rule(rep, u):
                 bad.append("the resume offset '%s' is modified at line %s between two searches: the search no longer resumes at the CRLF "
                            "the previous call stopped at (the next field line can be skipped or found twice)" % (a4["n"], x.get("ln")))
                 break
-    incs = [x for _, _, x, _ in fn.nodes() if x.get("k") == "un" and "++" in x["op"] and
-            not (len(calls) == 1 and key(strip_casts(x["e"])) == key(strip_casts(calls[0]["args"][4])))]
+    incs = [x for _, _, x, _ in fn.nodes() if core.step_of(x) is not None and core.step_of(x)[1] == 1 and
+            not (len(calls) == 1 and key(strip_casts(core.step_of(x)[0])) == key(strip_casts(calls[0]["args"][4])))]
     loops = fn.loops()
     if len(incs) != 1 or not loops or not any(True for h, b in loops.items()):
         bad.append("expected exactly one increment inside the loop, found %d" % len(incs))
     else:
-        rv = key(strip_casts(incs[0]["e"]))
+        rv = key(strip_casts(core.step_of(incs[0])[0]))
         rets = [key(strip_casts(r["e"])) for _, r in fn.returns() if r.get("e") is not None]
         if rets != [rv]:
             bad.append("returns %s, counts in %s" % (rets, rv))
